@@ -140,6 +140,9 @@ def r1_progress(ctx):
         [("50.00", 200, ()), ("70.00", 200, ())],
         # the same value reported twice, then an older report arriving late: the second report is the newest even though it changed nothing
         [("50.00", 100, ()), ("50.00", 300, ()), ("49.00", 200, ())],
+        # timestamps are opaque integers: the very first report of a job may carry 0
+        [("50.00", 0, ())],
+        [("50.00", 0, ()), ("60.00", 1, ())],
     ]
     table = []
     try:
@@ -242,6 +245,19 @@ def r2_results(ctx):
                               f"job j1 uploaded D1=DatasetId('a.b','c')->x and D3->b'' (empty); get_result({jid}, {dn}={vkey(dsn[dn])}) gives {got[0]} {vkey(got[1])[:60]}, expected "
                               f"{'an error (never uploaded for that job/dataset)' if exp == 'raise' else exp[1]!r}", row={"job": jid, "dataset": dn})
                 okk = False
+        # retrieving a result does not consume it: a second request (a client retry after a timeout, another user) gets the same bytes
+        gfi = repo.func(f"{R}.JobRouter.get_result")
+        w_twice = w
+        seen = []
+        for _ in range(2):
+            gp = _one(Interp(repo, inline=_INL).explore(gfi, env=w_twice, args={"job_id": j1, "dataset_id": D1}), "get_result")
+            seen.append(gp.exit)
+            w_twice = {k: v for k, v in gp.heap.items() if k.startswith("self.")}
+        ctx.evals(2)
+        if seen != [("return", b"x"), ("return", b"x")]:
+            ctx.violation("C18.R2", g.qual, loc(g), "a result can be retrieved again",
+                          f"j1 uploaded D1 -> x; two successive get_result(j1, D1) give {[(a, vkey(b)[:30]) for a, b in seen]}: the second request must return the uploaded bytes too")
+            okk = False
         sh = _shown(repo, w, [j1])
         if sh.get(j1) != "50.00":
             ctx.violation("C18.R2", fi.qual, L, "progress forwarded", f"the report's progress is not applied to its job: shown {vkey(sh.get(j1))}")
